@@ -120,6 +120,7 @@ def denomMode (base : Nat) (p : Pair) : Kind :=
 /-! ### the message server -/
 
 inductive UOp where
+  /-- sender: user `u`; receiver: party `r` (`partyAddr`) -/
   | convertCoin (d u r n : Nat)
   | convertERC20 (ct u r n : Nat)
   /-- `target = none`: the erc20 module (base denomination); `some c`: chain `c` -/
@@ -129,12 +130,53 @@ inductive UOp where
   | setEnable (b : Bool)
   deriving Repr
 
-/-- `MintingEnabled` -/
-def mintingEnabled (s : UState) (p : Option Pair) : Except Err Pair :=
-  if !s.enable then .error .disabled else
-  match p with
-  | none => .error .notFound
-  | some p => if !p.enabled then .error .disabled else .ok p
+/-! ### parties: who a message may name as receiver
+
+`0 … 2` users; `3` the erc20 module account; `4` the crosschain module account of chain 0; `5` the fee collector; `6`
+the gov module account; `7` a precompile address; `8` the zero address; `1000 + ct` the account of contract `ct`
+(`1000` = the WFX contract).  Bech32 and EVM form of an account are the same 20 bytes: one `Addr`. -/
+
+def zeroAddr : Addr := .ext 8
+
+def partyAddr (p : Nat) : Addr :=
+  if p < 3 then .user p else if p = 3 then .erc20Mod else if p = 4 then .chainMod 0 else
+  if p = 1000 then .wfx else .ext p
+
+/-- `bankKeeper.BlockedAddr` (`app.BlockedAccountAddrs`): every module account except gov -/
+def blocked : Addr → Bool
+  | .erc20Mod => true
+  | .chainMod _ => true
+  | .ext 5 => true
+  | _ => false
+
+/-- the guards of `MintingEnabled`, one constructor per `if … return err` of the Go function -/
+inductive MGuard where
+  | globalSwitch | pairFound | pairEnabled | receiverNotBlocked | sendEnabled
+  deriving DecidableEq, Repr
+
+/-- the guards in the order of the source (`Gen/C08b.lean mintingEnabled_guards`, tied by `handlers_match_code`) -/
+def codeGuards : List MGuard := [.globalSwitch, .pairFound, .pairEnabled, .receiverNotBlocked, .sendEnabled]
+
+def guardFails (s : UState) (recv : Addr) (p : Option Pair) : MGuard → Option Err
+  | .globalSwitch => if s.enable then none else some .disabled
+  | .pairFound => if p.isSome then none else some .notFound
+  | .pairEnabled => match p with
+    | some p => if p.enabled then none else some .disabled
+    | none => none
+  | .receiverNotBlocked => if blocked recv then some .invalid else none
+  | .sendEnabled => none      -- bank `SendEnabled` of the coin: on by default, not modelled
+
+/-- `MintingEnabled` for an arbitrary list of guards, evaluated in order -/
+def mintingEnabledG (gs : List MGuard) (s : UState) (recv : Addr) (p : Option Pair) : Except Err Pair :=
+  match gs.findSome? (guardFails s recv p) with
+  | some e => .error e
+  | none => match p with
+    | some p => .ok p
+    | none => .error .notFound
+
+/-- `MintingEnabled(ctx, receiver, token)` -/
+def mintingEnabled (s : UState) (recv : Addr) (p : Option Pair) : Except Err Pair :=
+  mintingEnabledG codeGuards s recv p
 
 def UState.withLedger (s : UState) (r : Except Err Ledger) : Except Err UState :=
   match r with
@@ -149,17 +191,19 @@ def idxGuard (s : UState) : IOp → Option Err
 
 def stepU (s : UState) : UOp → Except Err UState
   | .convertCoin d u r n =>
-    match mintingEnabled s (pairByDenom s.idx d) with
+    match mintingEnabled s (partyAddr r) (pairByDenom s.idx d) with
     | .error e => .error e
     | .ok p =>
       if s.dead.contains p.contract then .ok { s with idx := removePair s.idx p } else
-      s.withLedger (runFlow (convertCoinU p.kind d p.contract (.user u) (.user r) n) s.L)
+      -- FIP20 `_mint` / `_transfer` revert on the zero address
+      if partyAddr r = zeroAddr then .error .insufficient else
+      s.withLedger (runFlow (convertCoinU p.kind d p.contract (.user u) (partyAddr r) n) s.L)
   | .convertERC20 ct u r n =>
-    match mintingEnabled s (pairByErc s.idx ct) with
+    match mintingEnabled s (partyAddr r) (pairByErc s.idx ct) with
     | .error e => .error e
     | .ok p =>
       if s.dead.contains p.contract then .ok { s with idx := removePair s.idx p } else
-      s.withLedger (runFlow (convertERC20U p.kind p.denom p.contract (.user u) (.user r) n) s.L)
+      s.withLedger (runFlow (convertERC20U p.kind p.denom p.contract (.user u) (partyAddr r) n) s.L)
   | .convertDenom d u r n tgt =>
     match familyOf s.idx d with
     | none => .error .invalid
